@@ -25,8 +25,8 @@ ENTRY = dict(
                 "every enabled goroutine is eventually scheduled; on the implementation it is a deadline on every call."),
     technique="Lean 4 proof (inductive invariants over all schedules of a channel-level model) + actor differential with model replay + grammar on engine histories",
     lean_modules=["Bpmn.Props.C09", "Bpmn.Props.C09Current"],
-    families=["c09", "c09g", "c09c", "c09x", "c06", "c06loop"],
-    harness_files=["c06.go", "c06loop.go"],
+    families=["c09", "c09g", "c09c", "c09x", "c06", "c06loop", "c10", "c11"],
+    harness_files=["c06.go", "c06loop.go", "c10.go", "c11.go", "c11gen.go", "c11match.go"],
     exhaustive=False,
     rule=("c09x: the shutdown phase — 1..3 REGISTERED senders keep sending after the tracer's context is cancelled at a seeded position, 2..3 subscribers (one fast, the others with buffers 0..2 and pacing consumers) stay until their channels are closed: each holds every trace, all in one order, sender order kept; c09: seeded plans of 1..8 sender goroutines (1..40 numbered traces each, thorough 1..120), 1..4 subscriber slots "
           "with 1..3 subscription episodes each (fresh channel, capacity in {0,1,2,3,5,10,64}, consumer pace 0..3, join at a "
@@ -37,7 +37,7 @@ ENTRY = dict(
           "witness (every trace once, every sender in program order), every episode (a contiguous segment of the witness "
           "order that starts inside the window in which its SubscribeChannel ran and reaches the end if it read to the "
           "end), and replays the operation sequence through Model.Tracer.step comparing what each episode received. "
-          "c06, c06loop: the event-based-gateway histories of C06 (withdrawn tokens: flows that end without reaching an end event; the gateway re-entered in a loop) through the same causality grammar; c09g: the block-structured programs of C01's generator (two thirds) and loops around 3..7-way parallel forks "
+          "c10, c11: the boundary-event and catch-event histories of C10 / C11 (listener flows, interrupted hosts, refiring catch events, sub-processes with events) through the causality grammar; c06, c06loop: the event-based-gateway histories of C06 (withdrawn tokens: flows that end without reaching an end event; the gateway re-entered in a loop) through the same causality grammar; c09g: the block-structured programs of C01's generator (two thirds) and loops around 3..7-way parallel forks "
           "(one third) on the real engine, every second case with the engine's schedule points perturbed; Spec.causal is "
           "evaluated on the recorded trace stream (relayed sub-process traces handled explicitly). c09c: such programs "
           "(and 2..5-way forks) with the instance context cancelled at a seeded moment - 0..300 us after a task was "
